@@ -68,68 +68,90 @@ def cfg_label(cfg):
     return cfg.key()
 
 
-def analyse_renderer(ctx, rep, cfg, facts, prop='C08', judge=True, only_methods=None):
+def _task(args):
+    """Worker: all paths of one render method on one token class under one configuration."""
+    model, cfg, facts, key, func, cls = args
+    unit = model.unit_of(func)
+    recs = []
+    n_holes = 0
+    vocab = set()
+    outs = T.run_render_method(model, cfg, func, cls, facts)
+    for po in outs:
+        if po.truncated:
+            continue
+        if po.raised is not None:
+            recs.append(('note', '%s(%s) raises %s under %s' % (func.short, cls.name, po.raised.exc.kind, cfg_label(cfg))))
+            continue
+        v = po.value
+        sk = v if isinstance(v, T.Skel) else T.Skel.of(v)
+        raw_ok = key in RAW_CLASSES and len(sk.parts) == 1 and isinstance(sk.parts[0], T.Hole) \
+            and isinstance(sk.parts[0].value, T.Taint) and sk.parts[0].value.is_raw()
+        issues, holes, tags = T.lex_html(sk, raw_ok=raw_ok, inductive=lambda f: T.inductive_summary(model, cfg, f))
+        vocab |= tags
+        if raw_ok:
+            recs.append(('ob', 'R-RAW-ONLY-HTML', True, {'method': func.short, 'class': key, 'config': cfg_label(cfg)}))
+        n_holes += len(holes)
+        hole_issues = [i for i in issues if i.kind == 'hole']
+        bal_issues = [i for i in issues if i.kind in ('balance', 'template')]
+        recs.append(('ob', 'R-HOLE', not hole_issues, {'method': func.short, 'token': key, 'config': cfg_label(cfg),
+                                                       'skeleton': sk.text()[:160],
+                                                       'holes': ['%s:%s' % (c, T._hole_name(h)) for c, h in holes]}))
+        recs.append(('ob', 'R-BALANCE', not bal_issues, {'method': func.short, 'skeleton': sk.text()[:160]}))
+        for i in hole_issues:
+            label = getattr(i.hole, 'label', None) or T._hole_name(i.hole)
+            recs.append(('find', 'R-HOLE', func.short, '%s->%s' % (label, i.context),
+                         '%s (token %s): %s; skeleton %r' % (func.short, key, i.detail, sk.text()[:120]), loc(unit, func.node)))
+        for i in bal_issues:
+            recs.append(('find', 'R-BALANCE', func.short, i.detail[:60],
+                         '%s (token %s): %s; skeleton %r' % (func.short, key, i.detail, sk.text()[:120]), loc(unit, func.node)))
+        r = po.interp.renderer
+        st0 = cfg.obj.attrs.get('_suppress_ptag_stack')
+        st1 = r.attrs.get('_suppress_ptag_stack')
+        if st0 is not None:
+            ok = st0 == st1
+            recs.append(('ob', 'R-STACK', ok, {'method': func.short, 'stack_after': repr(st1)}))
+            if not ok:
+                recs.append(('find', 'R-STACK', func.short, '_suppress_ptag_stack',
+                             '%s leaves the <p>-suppression stack as %r instead of %r: later paragraphs lose or gain '
+                             '<p> tags' % (func.short, st1, st0), loc(unit, func.node)))
+    return recs, n_holes, sorted(vocab), func.short
+
+
+def replay(rep, recs):
+    for r in recs:
+        if r[0] == 'ob':
+            rep.obligation(r[1], r[2], r[3])
+        elif r[0] == 'find':
+            rep.find(r[1], r[2], r[3], r[4], r[5], witness=r[6] if len(r) > 6 else None)
+        elif r[0] == 'note':
+            rep.note(r[1])
+        elif r[0] == 'inst':
+            rep.instance(r[1])
+
+
+def analyse_renderers(ctx, rep, cfgs, facts):
+    from ..par import pmap
     model = ctx.model
-    uni = universe(cfg, facts)
-    by_name = {}
-    for c in uni:
-        by_name.setdefault(c.name, []).append(c)
+    tasks = []
+    for cfg in cfgs:
+        uni = universe(cfg, facts)
+        by_name = {}
+        for c in uni:
+            by_name.setdefault(c.name, []).append(c)
+        for key, func in sorted(cfg.render_map.items(), key=lambda kv: kv[0]):
+            if not isinstance(func, FuncInfo):
+                continue
+            for cls in by_name.get(key, []):
+                tasks.append((model, cfg, facts, key, func, cls))
     n_holes = 0
     methods = set()
     vocab = set()
-    for key, func in sorted(cfg.render_map.items(), key=lambda kv: kv[0]):
-        if not isinstance(func, FuncInfo):
-            continue
-        if only_methods is not None and func.name not in only_methods:
-            continue
-        for cls in by_name.get(key, []):
-            methods.add(func.short)
-            unit = model.unit_of(func)
-            rep.instance('R-HOLE')
-            outs = T.run_render_method(model, cfg, func, cls, facts)
-            for po in outs:
-                if po.truncated:
-                    continue
-                if po.raised is not None:
-                    # totality is C01's business; note it
-                    rep.note('%s(%s) raises %s under %s' % (func.short, cls.name, po.raised.exc.kind, cfg_label(cfg)))
-                    continue
-                v = po.value
-                sk = v if isinstance(v, T.Skel) else T.Skel.of(v)
-                raw_ok = key in RAW_CLASSES and len(sk.parts) == 1 and isinstance(sk.parts[0], T.Hole) \
-                    and isinstance(sk.parts[0].value, T.Taint) and sk.parts[0].value.is_raw()
-                issues, holes, tags = T.lex_html(sk, raw_ok=raw_ok, inductive=lambda f: T.inductive_summary(model, cfg, f))
-                vocab |= tags
-                if raw_ok:
-                    rep.obligation('R-RAW-ONLY-HTML', True, {'method': func.short, 'class': key, 'config': cfg_label(cfg)})
-                for ctxname, hv in holes:
-                    n_holes += 1
-                hole_issues = [i for i in issues if i.kind == 'hole']
-                bal_issues = [i for i in issues if i.kind in ('balance', 'template')]
-                rep.obligation('R-HOLE', not hole_issues, {'method': func.short, 'token': key, 'config': cfg_label(cfg),
-                                                           'skeleton': sk.text()[:160],
-                                                           'holes': ['%s:%s' % (c, T._hole_name(h)) for c, h in holes]})
-                rep.obligation('R-BALANCE', not bal_issues, {'method': func.short, 'skeleton': sk.text()[:160]})
-                for i in hole_issues:
-                    label = getattr(i.hole, 'label', None) or T._hole_name(i.hole)
-                    rep.find('R-HOLE', func.short, '%s->%s' % (label, i.context),
-                             '%s (token %s): %s; skeleton %r' % (func.short, key, i.detail, sk.text()[:120]),
-                             loc(unit, func.node))
-                for i in bal_issues:
-                    rep.find('R-BALANCE', func.short, i.detail[:60],
-                             '%s (token %s): %s; skeleton %r' % (func.short, key, i.detail, sk.text()[:120]),
-                             loc(unit, func.node))
-                # R-STACK
-                r = po.interp.renderer
-                st0 = cfg.obj.attrs.get('_suppress_ptag_stack')
-                st1 = r.attrs.get('_suppress_ptag_stack')
-                if st0 is not None:
-                    ok = st0 == st1
-                    rep.obligation('R-STACK', ok, {'method': func.short, 'stack_after': repr(st1)})
-                    if not ok:
-                        rep.find('R-STACK', func.short, '_suppress_ptag_stack',
-                                 '%s leaves the <p>-suppression stack as %r instead of %r: later paragraphs lose or gain '
-                                 '<p> tags' % (func.short, st1, st0), loc(unit, func.node))
+    for recs, n, v, m in pmap(_task, tasks):
+        rep.instance('R-HOLE')
+        replay(rep, recs)
+        n_holes += n
+        vocab |= set(v)
+        methods.add(m)
     return n_holes, methods, vocab
 
 
@@ -189,16 +211,10 @@ def run(ctx):
     cfgs = [c for c in ctx.configs() if c.label in HTML_RENDERERS]
     if not cfgs:
         raise AnalysisError('no HtmlRenderer configuration evaluated')
-    total_holes = 0
-    methods = set()
-    vocab = set()
     for cfg in cfgs:
         if cfg.error is not None:
             raise AnalysisError('HtmlRenderer(%s) cannot be constructed: %r' % (cfg.options, cfg.error))
-        n, m, v = analyse_renderer(ctx, rep, cfg, facts)
-        total_holes += n
-        methods |= m
-        vocab |= v
+    total_holes, methods, vocab = analyse_renderers(ctx, rep, cfgs, facts)
     rule_raw_only(ctx, rep, cfgs, facts)
     rule_sanitisers(ctx, rep, cfgs, facts)
     rep.extra['tag_vocabulary'] = sorted(vocab)
